@@ -31,6 +31,7 @@ type vfTWOpts struct {
 	AnonLast   bool // last ordinary user has anonymous level
 	PreSub     []int // users subscribed (default mode) during setup
 	DefAcs     string
+	Admin      []int // pre-subscribed users made administrators (want = given = JRWPAS) during setup
 }
 
 func vfBuildTW(o vfTWOpts) *vfTW {
@@ -71,6 +72,15 @@ func vfBuildTW(o vfTWOpts) *vfTW {
 			vsched.Fail("harness", fmt.Sprintf("presub u%d: %d", i, code))
 		}
 	}
+	for _, i := range o.Admin {
+		if code, _ := t.cl[0].Req(`{"set":{"id":"$ID","topic":"%s","sub":{"user":"%s","mode":"JRWPAS"}}}`, t.grp, t.users[i].id()); code != 200 {
+			vsched.Fail("harness", fmt.Sprintf("grant admin u%d: %d", i, code))
+		}
+		if code, _ := t.cl[i].Req(`{"set":{"id":"$ID","topic":"%s","sub":{"mode":"JRWPAS"}}}`, t.grp); code != 200 {
+			vsched.Fail("harness", fmt.Sprintf("accept admin u%d: %d", i, code))
+		}
+	}
+	vsched.Quiesce()
 	for _, c := range t.cl {
 		c.Take()
 	}
